@@ -464,22 +464,79 @@ def m_unwrap_failed(I, st, fr, args, path, gargs, t):
     raise PanicExc('unwrap-none', {'fn': path})
 
 
-# ----------------------------------------------------------------------------- fmt and strings (opaque, no panics modelled)
-@model(r'core::fmt::Arguments::<\'a>::(new|from_str|new_const|new_v1|from_str_nonconst)|core::fmt::rt::Argument::<\'_>::(new_display|from_usize|new_debug)|core::fmt::format|<T as core::string::ToString>::to_string|core::fmt::Formatter::<\'a>::(write_fmt|write_str|pad|pad_integral)|<str as core::fmt::Display>::fmt|core::fmt::rt::.*')
-def m_fmt_opaque(I, st, fr, args, path, gargs, t):
-    return Opaque('fmt', path.rsplit('::', 1)[1])
+# ----------------------------------------------------------------------------- fmt and strings: the *arguments* handed to the formatting machinery are kept structurally
+@model(r"core::fmt::rt::Argument::<'_>::(new_display|new_debug|new_lower_exp|new_upper_exp)")
+def m_fmt_arg(I, st, fr, args, path, gargs, t):
+    return Agg('fmtarg:' + path.rsplit('::new_', 1)[1], None, (deref(I, st, args[0]),))
 
 
-@model(r'core::fmt::Formatter::<\'a>::precision')
+@model(r"core::fmt::rt::Argument::<'_>::from_usize")
+def m_fmt_arg_usize(I, st, fr, args, path, gargs, t):
+    return Agg('fmtarg:usize', None, (deref(I, st, args[0]),))
+
+
+@model(r"core::fmt::Arguments::<'a>::(new|new_v1|new_v1_formatted|new_const|from_str|from_str_nonconst)")
+def m_fmt_arguments(I, st, fr, args, path, gargs, t):
+    fa = ()
+    for a in args[1:]:
+        v = deref(I, st, a)
+        if isinstance(v, Agg) and v.kind == 'array':
+            fa = v.fields
+    tmpl = args[0] if args else None
+    return Agg('fmtargs', None, (tmpl,) + tuple(fa))
+
+
+@model(r'core::fmt::format')
+def m_fmt_format(I, st, fr, args, path, gargs, t):
+    a = args[0]
+    if isinstance(a, Agg) and a.kind == 'fmtargs':
+        return Agg('string', None, a.fields[1:])
+    return Opaque('String', 'format')
+
+
+@model(r'<T as core::string::ToString>::to_string')
+def m_to_string(I, st, fr, args, path, gargs, t):
+    v = deref(I, st, args[0])
+    if isinstance(v, Int):
+        return Agg('string', None, (Agg('fmtarg:display', None, (v,)),))
+    return Opaque('String', 'to_string')
+
+
+@model(r"core::fmt::Formatter::<'a>::pad_integral")
+def m_pad_integral(I, st, fr, args, path, gargs, t):
+    st.note(('pad_integral', args[1], args[2], deref(I, st, args[3]) if isinstance(args[3], Ref) else args[3]))
+    return Opaque('fmt::Result', 'pad_integral')
+
+
+@model(r"core::fmt::Formatter::<'a>::(write_fmt|write_str|pad|write_char|pad_formatted_parts)|<str as core::fmt::Display>::fmt|<.* as core::fmt::(Display|Debug)>::fmt")
+def m_fmt_write(I, st, fr, args, path, gargs, t):
+    st.note(('fmtwrite', path))
+    return Opaque('fmt::Result', path.rsplit('::', 1)[1])
+
+
+@model(r"core::fmt::Formatter::<'a>::precision")
 def m_precision(I, st, fr, args, path, gargs, t):
+    pr = getattr(I.opts, 'precision', 'sym')
+    if pr is None:
+        return none()
+    if isinstance(pr, int):
+        return some(K(pr, 'usize'))
     k = st.choose(2)
     if k == 0:
         return none()
     return some(st.fresh('usize', 0, None, 'precision'))
 
 
+@model(r"core::fmt::Formatter::<'a>::(width|fill|align|sign_plus|sign_minus|alternate|sign_aware_zero_pad|flags)")
+def m_fmt_flags(I, st, fr, args, path, gargs, t):
+    return Opaque('fmt', path.rsplit('::', 1)[1])
+
+
 @model(r'<core::string::String as core::ops::Deref>::deref|core::string::String::as_str')
 def m_string_deref(I, st, fr, args, path, gargs, t):
+    v = deref(I, st, args[0])
+    if isinstance(v, Agg) and v.kind == 'string':
+        return Agg('strref', None, (v,))
     return SliceVal(st.fresh('usize', 0, 2**62, 'strlen'), 'str')
 
 
